@@ -179,6 +179,15 @@ pub fn c01<T: Fx>(thorough: bool) -> Vec<CellDef> {
             v.push(CellDef::new("C01", format!("{}/{}{}", T::NAME, OPS[op as usize], sfx), sp, move |k| bin_case::<T>(op, k)));
         }
         if T::N == 32 {
+            // shape alphabet: operands whose fractions are runs of ones / single bits at every relative scale
+            let ax = crate::deep::alphabet_x(32, 2, thorough);
+            if thorough {
+                v.push(CellDef::new("C01", format!("P32E2/{}#shapes", OPS[op as usize]), Space::prod2(ax.clone(), ax, "shape alphabet (every scale x runs of ones / single bits / menu, both signs)^2"), move |k| bin_case::<T>(op, k)));
+            } else {
+                let near = crate::deep::alphabet_x_near_one(32, 2, false);
+                v.push(CellDef::new("C01", format!("P32E2/{}#shapes", OPS[op as usize]), Space::prod2(near.clone(), ax.clone(), "shape alphabet members with scale in [-2,2] x whole shape alphabet"), move |k| bin_case::<T>(op, k)));
+                v.push(CellDef::new("C01", format!("P32E2/{}#shapes_r", OPS[op as usize]), Space::prod2(ax, near, "whole shape alphabet x members with scale in [-2,2]"), move |k| bin_case::<T>(op, k)));
+            }
             let al = alphabet(32, 2, thorough);
             let al = if thorough { al } else { thin(&al, 3) };
             let t = ties32(op, &al);
